@@ -5,7 +5,8 @@ pid = sys.argv[1]
 wt = sys.argv[2] if len(sys.argv) > 2 else pid
 wave2 = len(sys.argv) > 3
 wave3 = len(sys.argv) > 3 and sys.argv[3] == 'w3'
-wave4 = len(sys.argv) > 3 and sys.argv[3] in ('w4', 'w5', 'w6')
+wave4 = len(sys.argv) > 3 and sys.argv[3] in ('w4', 'w5', 'w6', 'w7')
+wave7 = len(sys.argv) > 3 and sys.argv[3] == 'w7'
 wave6 = len(sys.argv) > 3 and sys.argv[3] == 'w6'
 wave5 = len(sys.argv) > 3 and sys.argv[3] == 'w5'
 extra = ""
@@ -17,6 +18,8 @@ if wave4:
     extra += " Prefer changes whose effect depends on state left behind by a DIFFERENT session or an earlier request (pending transfers, stale table entries, leftover files, cached values), on integer fields sent in their shorter or longer legal encodings (Hotline integers may be 2 or 4 bytes), on values at the limits of their range (0, 1, 255/256, 65535/65536, 2^31, 2^32-1), on names at the limits of their length or containing non-ASCII bytes, or on the relative order of two operations by different users."
 if wave6:
     extra += " For this round, look for what an automated checker that already exercises the common paths, concurrency, restarts and boundary sizes would STILL most likely overlook: rarely used request variants (old-client login flow, optional fields absent or present, requests addressed to things that do not exist, requests on aliases, drop boxes, per-account file roots, fork-preserving mode, nested news bundles), interactions between two features, behaviour under non-default configuration values (ignore patterns, news delimiter and date format, banner, download limits, line endings), and the lifecycle of table entries (pending transfers, chats, registry entries) after errors or refusals."
+if wave7:
+    extra += " For this round, aim at SECONDARY observables that a checker focused on the main effect of each request would not compare: what OTHER connected users receive or see as a consequence (notification contents such as ids, names, icons, flags; who is and is not notified; the order of two notifications), the less prominent fields of a reply (sizes, counts, dates, type and creator codes, flags, reference numbers, quoted text), and what is left behind after the operation completes or fails (table entries, counters, temporary and side files, the state seen by the NEXT request of the same or another user). The property must still be genuinely broken by the change."
 if wave5:
     extra += " The THREE changes must be of three different kinds: m1 must need two sessions (or a session and a transfer connection) whose operations interleave or follow each other in a particular order; m2 must only show after a restart, reload or crash, or through files left behind on disk; m3 must only show for particular input encodings, lengths or boundary values. At least one of the three must be in a file that is NOT among the code anchors listed above."
 p = next(json.loads(l) for l in open('/verif/properties.jsonl') if json.loads(l)['id'] == pid)
